@@ -302,8 +302,11 @@ pub fn wrap_case(seed: u64, idx: u64, n_ops: usize) -> Case {
     case.sim.user_props_max = 0;
     case.sim.max_steps = n_ops * 14 + 1000;
     case.broker.ack_delay_max_ms = *r.pick(&[3u64, 30]);
-    case.broker.session_keep_pct = 100;
-    case.sim.close_permille = *r.pick(&[0u64, 1]);
+    // some acknowledgements are withheld so that a few operations stay in flight while the
+    // allocator goes all the way round; sessions are resumed or lost at random
+    case.broker.ack_withhold_pct = *r.pick(&[0u64, 1]);
+    case.broker.session_keep_pct = *r.pick(&[0u64, 50, 100]);
+    case.sim.close_permille = *r.pick(&[0u64, 1, 1]);
     case.sim.max_conns = 400;
     case.sim.reconnect_delay_max_ms = 2;
     case
